@@ -68,8 +68,17 @@ inductive Window
   | between (lo hi : Bound)      -- ROWS BETWEEN lo AND hi
   deriving DecidableEq, Repr, Inhabited
 
-/-- `frameIndex` inside WindowFrameSet -/
+/-- `frameIndex` inside WindowFrameSet: a position from -1 (before the first row) to `length` (after the
+    last row) — the code does not compute positions beyond these limits (an offset can be any integer) -/
 def frameIndex (current length : Nat) : Bound → Int
+  | .currentRow => (current : Int)
+  | .unboundedPreceding => 0
+  | .preceding n => if (current : Int) < (n : Int) then -1 else (current : Int) - (n : Int)
+  | .unboundedFollowing => (length : Int) - 1
+  | .following n => if (length : Int) - (current : Int) ≤ (n : Int) then (length : Int) else (current : Int) + (n : Int)
+
+/-- the textbook position of a frame bound: `current ∓ n`, unclamped -/
+def frameIndexPlain (current length : Nat) : Bound → Int
   | .currentRow => (current : Int)
   | .unboundedPreceding => 0
   | .preceding n => (current : Int) - (n : Int)
@@ -468,5 +477,75 @@ def mirror : Window → Window
   | .orderOnly => .between .currentRow .unboundedFollowing
   | .rows lo => .between .currentRow (flipBound lo)
   | .between lo hi => .between (flipBound hi) (flipBound lo)
+
+/-! ## the registration tables (reviewed copies; Props/C17.lean proves the generated ones equal them) -/
+
+/-- the AnalyticFunctions map -/
+def registry : List (String × String) :=
+  [("ROW_NUMBER", "RowNumber"), ("RANK", "Rank"), ("DENSE_RANK", "DenseRank"), ("CUME_DIST", "CumeDist"),
+   ("PERCENT_RANK", "PercentRank"), ("NTILE", "NTile"), ("FIRST_VALUE", "FirstValue"), ("LAST_VALUE", "LastValue"),
+   ("NTH_VALUE", "NthValue"), ("LAG", "Lag"), ("LEAD", "Lead"), ("LISTAGG", "AnalyticListAgg"), ("JSON_AGG", "AnalyticJsonAgg")]
+
+/-- CheckArgsLen: [n] = exactly n arguments, [a, b] = between a and b -/
+def argLens : List (String × List Nat) :=
+  [("RowNumber", [0]), ("Rank", [0]), ("DenseRank", [0]), ("CumeDist", [0]), ("PercentRank", [0]), ("NTile", [1]),
+   ("FirstValue", [1]), ("LastValue", [1]), ("NthValue", [2]), ("Lag", [1, 3]), ("Lead", [1, 3]),
+   ("AnalyticListAgg", [1, 2]), ("AnalyticJsonAgg", [1])]
+
+/-- which shared helper every Execute calls, with its constant arguments: FIRST_VALUE = setNthValue(1, from the
+    first row), LAST_VALUE = setNthValue(1, from the last row), NTH_VALUE = setNthValue(n, from the first row),
+    LAG = setLag, LEAD = setLag on the reversed partition -/
+def delegations : List (String × List String) :=
+  [("RowNumber", []), ("Rank", []), ("DenseRank", []), ("CumeDist", ["perseCumulativeGroups()"]),
+   ("PercentRank", ["perseCumulativeGroups()"]), ("NTile", []), ("FirstValue", ["setNthValue(1, false)"]),
+   ("LastValue", ["setNthValue(1, true)"]), ("NthValue", ["setNthValue(n, false)"]), ("Lag", ["setLag()"]),
+   ("Lead", ["partition.Reverse()", "setLag()"]),
+   ("AnalyticListAgg", ["Distinguish(values, scope.Tx.Flags)", "ListAgg(values, separator)"]),
+   ("AnalyticJsonAgg", ["Distinguish(values, scope.Tx.Flags)", "JsonAgg(values)"])]
+
+/-- the token class of a function name (lib/parser/scanner.go) -/
+def keywordClasses : List (String × List String) :=
+  [("aggregateFunctions", ["MIN", "MAX", "SUM", "AVG", "STDEV", "STDEVP", "VARP", "MEDIAN"]),
+   ("listFunctions", ["LISTAGG", "JSON_AGG"]),
+   ("analyticFunctions", ["ROW_NUMBER", "RANK", "DENSE_RANK", "CUME_DIST", "PERCENT_RANK", "NTILE"]),
+   ("functionsNth", ["FIRST_VALUE", "LAST_VALUE", "NTH_VALUE"]),
+   ("functionsWithIgnoreNulls", ["LAG", "LEAD"])]
+
+def keywordTokens : List (String × String) :=
+  [("aggregateFunctions", "AGGREGATE_FUNCTION"), ("listFunctions", "LIST_FUNCTION"), ("analyticFunctions", "ANALYTIC_FUNCTION"),
+   ("functionsNth", "FUNCTION_NTH"), ("functionsWithIgnoreNulls", "FUNCTION_WITH_INS")]
+
+/-- per token class: (may carry IGNORE NULLS, may carry a windowing clause) — read off the productions of
+    `analytic_function` in parser.y.  User-defined aggregates (`identifier`), the aggregate functions, VAR and COUNT
+    take a windowing clause; ROW_NUMBER … NTILE, LISTAGG / JSON_AGG, LAG / LEAD do not; only FIRST/LAST/NTH_VALUE and
+    LAG / LEAD take IGNORE NULLS.  A windowing clause requires ORDER BY. -/
+def clauseRights : List (String × Bool × Bool) :=
+  [("identifier", false, true), ("AGGREGATE_FUNCTION", false, true), ("VAR", false, true), ("COUNT", false, true),
+   ("LIST_FUNCTION", false, false), ("ANALYTIC_FUNCTION", false, false), ("FUNCTION_NTH", true, true),
+   ("FUNCTION_WITH_INS", true, false)]
+
+/-- the productions themselves -/
+def grammarForms : List (String × List String) :=
+  [("analytic_function", ["identifier '(' arguments ')' OVER '(' analytic_clause_with_windowing ')'", "identifier '(' distinct arguments ')' OVER '(' analytic_clause_with_windowing ')'", "AGGREGATE_FUNCTION '(' distinct arguments ')' OVER '(' analytic_clause_with_windowing ')'", "VAR '(' distinct arguments ')' OVER '(' analytic_clause_with_windowing ')'", "COUNT '(' distinct arguments ')' OVER '(' analytic_clause_with_windowing ')'", "COUNT '(' distinct wildcard ')' OVER '(' analytic_clause_with_windowing ')'", "LIST_FUNCTION '(' distinct arguments ')' OVER '(' analytic_clause ')'", "ANALYTIC_FUNCTION '(' arguments ')' OVER '(' analytic_clause ')'", "FUNCTION_NTH '(' arguments ')' OVER '(' analytic_clause_with_windowing ')'", "FUNCTION_NTH '(' arguments ')' IGNORE NULLS OVER '(' analytic_clause_with_windowing ')'", "FUNCTION_WITH_INS '(' arguments ')' OVER '(' analytic_clause ')'", "FUNCTION_WITH_INS '(' arguments ')' IGNORE NULLS OVER '(' analytic_clause ')'"]),
+   ("analytic_clause", ["partition_clause order_by_clause"]),
+   ("analytic_clause_with_windowing", ["analytic_clause", "partition_clause ORDER BY order_items windowing_clause"]),
+   ("windowing_clause", ["ROWS window_position", "ROWS BETWEEN window_frame_low AND window_frame_high"]),
+   ("window_position", ["UNBOUNDED PRECEDING", "INTEGER PRECEDING", "CURRENT ROW"]),
+   ("window_relative_position", ["INTEGER PRECEDING", "INTEGER FOLLOWING", "CURRENT ROW"]),
+   ("window_frame_low", ["UNBOUNDED PRECEDING", "window_relative_position"]),
+   ("window_frame_high", ["UNBOUNDED FOLLOWING", "window_relative_position"])]
+
+/-- (IGNORE NULLS allowed, windowing clause allowed) of one production of `analytic_function` -/
+def rightsOfProduction (prod : String) : String × Bool × Bool :=
+  let ws := prod.splitOn " "
+  (ws.headD "", ws.contains "IGNORE", ws.contains "analytic_clause_with_windowing")
+
+/-- fold the productions: a class has a right if one of its productions grants it -/
+def rightsOfGrammar (prods : List String) : List (String × Bool × Bool) :=
+  prods.foldl (fun acc prod =>
+    let r := rightsOfProduction prod
+    if acc.any (fun a => a.1 == r.1) then
+      acc.map (fun a => if a.1 == r.1 then (a.1, a.2.1 || r.2.1, a.2.2 || r.2.2) else a)
+    else acc ++ [r]) []
 
 end Csvq.Analytic
